@@ -1224,7 +1224,7 @@ def _jstring(*a):
 FNS = {
     "mod2": lambda x: _num(x) % 2,
     "half": lambda x: math.floor(_num(x) / 2),
-    "neg": lambda x: -_fl(x),
+    "neg": lambda x: 0.0 - _fl(x),     # (- x) is defined as 0 - x (so the negation of 0 is +0)
     "lt1": lambda x: jcmp_num(x, 1),
     "lt2": lambda x: jcmp_num(x, 2),
     "eq1": lambda x: jeq(x, 1),
